@@ -12,7 +12,10 @@ package c04
 import (
 	"fmt"
 	"os"
+	"path/filepath"
+	"runtime"
 	"strconv"
+	"sync/atomic"
 	"strings"
 	"testing"
 	"testing/synctest"
@@ -37,7 +40,34 @@ func TestMain(m *testing.M) {
 	R.Assume("all three peers of the peerset have a valid unexpired metric throughout (allocation under unhealthy peers is C03's subject)")
 	R.Assume("Pin.UserAllocations is a transient request field that is not stored; it is judged through the allocation it produces only")
 	R.Assume("where several current holders exceed a lowered maximum the code drops arbitrary ones (map order): successor states, and therefore the exact state count, may differ slightly between runs; verdicts do not")
+	go watchdog()
 	ev.Main(m.Run, R)
+}
+
+// progress counts executed calls; the watchdog turns a stalled run (a bubble
+// that never ends) into a prompt "broken check" exit with a goroutine dump
+// instead of vcheck's 25-minute timeout. It runs outside every bubble, on the
+// real clock.
+var progress atomic.Int64
+
+func watchdog() {
+	last, since := int64(-1), time.Now()
+	for {
+		time.Sleep(2 * time.Second)
+		if p := progress.Load(); p != last {
+			last, since = p, time.Now()
+			continue
+		}
+		if time.Since(since) > 3*time.Minute {
+			buf := make([]byte, 8<<20)
+			buf = buf[:runtime.Stack(buf, true)]
+			dump := filepath.Join(ev.Root, "replays", "C04", "stall-goroutines.txt")
+			os.MkdirAll(filepath.Dir(dump), 0o755)
+			os.WriteFile(dump, buf, 0o644)
+			fmt.Printf("BROKEN: C04 made no progress for 3 minutes after %d calls (a bubble does not end); goroutine dump in %s\n", last, dump)
+			os.Exit(2)
+		}
+	}
 }
 
 type bounds struct {
@@ -56,10 +86,25 @@ func tierBounds() (main bounds, deep *bounds) {
 	return bounds{plain: []string{"a", "b"}, depth: 3, followerTo: 1, replays: 60, budget: 45 * time.Second}, nil
 }
 
-// testBudget lets the budget handling itself be exercised (C04_BUDGET_S=1).
+var processStart = time.Now()
+
+// overall wall limit of the whole run; section budgets never reach past it
+func overallLeft() time.Duration {
+	limit := 80 * time.Second
+	if ev.Thorough() {
+		limit = 27 * time.Minute
+	}
+	return limit - time.Since(processStart)
+}
+
+// testBudget caps a section budget by what is left of the overall limit, and
+// lets the budget handling itself be exercised (C04_BUDGET_S=1).
 func testBudget(d time.Duration) time.Duration {
 	if s, err := strconv.Atoi(os.Getenv("C04_BUDGET_S")); err == nil && s > 0 {
 		return time.Duration(s) * time.Second
+	}
+	if l := overallLeft(); l < d {
+		d = l
 	}
 	return d
 }
@@ -78,11 +123,11 @@ func runBFS(t *testing.T, name string, b bounds) {
 	var nStates int64
 	for _, cfg := range factorConfigs {
 		fixture := buildFixtureState(t, cfg)
-		e := &explorer{name: name, cfg: cfg, calls: calls, seen: map[string]int{}, sec: sec}
+		e := &explorer{name: name, cfg: cfg, calls: calls, seen: map[hkey]struct{}{}, sec: sec}
 		e.addRoot(nil, "[start: empty pinset]")
 		e.addRoot(fixture, "[start: sharded fixture installed]")
 		e.bfs(t, b.depth, budget)
-		nStates += int64(len(e.nodes))
+		nStates += int64(len(e.nodes) + e.countedOnly)
 		R.SampleTagged("state", 2, map[string]interface{}{"config": cfg.String(), "history": e.history(len(e.nodes) - 1), "pinset": canonSet(e.nodes[len(e.nodes)-1].pins)})
 
 		// follower mode on: the same states, every call
@@ -95,7 +140,7 @@ func runBFS(t *testing.T, name string, b bounds) {
 			}
 			fcfg := cfg
 			fcfg.Follower = true
-			if _, complete := e.expand(t, fcfg, fr, 0, budget, false); !complete {
+			if _, complete := e.expand(t, fcfg, fr, 0, budget, false, false); !complete {
 				sec.Exhaustive = false
 				sec.CapHit = "time budget hit in the follower-mode pass under " + fcfg.String()
 				R.NotExhaustive(name + ": " + sec.CapHit)
@@ -130,6 +175,9 @@ func TestPairwise(t *testing.T) {
 	sec := R.Sec("pairwise")
 	calls := pairwiseCalls()
 	depth := 2
+	if ev.Thorough() {
+		depth = 3
+	}
 	sec.Bounds["cid_universe"] = "a (update sources b, x, m are never pinned here)"
 	sec.Bounds["depth"] = depth
 	sec.Bounds["calls_per_state"] = len(calls)
@@ -142,10 +190,10 @@ func TestPairwise(t *testing.T) {
 	budget := ev.NewBudget(testBudget(bud))
 	var nStates int64
 	for _, cfg := range factorConfigs {
-		e := &explorer{name: "pairwise", cfg: cfg, calls: calls, seen: map[string]int{}, sec: sec}
+		e := &explorer{name: "pairwise", cfg: cfg, calls: calls, seen: map[hkey]struct{}{}, sec: sec}
 		e.addRoot(nil, "[start: empty pinset]")
 		e.bfs(t, depth, budget)
-		nStates += int64(len(e.nodes))
+		nStates += int64(len(e.nodes) + e.countedOnly)
 	}
 	R.States(sec, nStates)
 }
@@ -165,7 +213,7 @@ func maskAllocs(pins []api.Pin) string {
 
 func replaySample(t *testing.T, e *explorer, want int) {
 	sec := R.Sec("replay")
-	sec.Bounds["what"] = "a deterministic sample of reached states (every k-th, all depths) is re-reached by replaying its shortest history on a fresh peer with the real pin tracker attached; every step is judged again; the final pinset must equal the state the search stored, and the raw datastore content must equal what restoring that state writes"
+	sec.Bounds["what"] = "a deterministic sample of reached states (every k-th stored state of every depth; of the deepest level one state in 50 is stored) is re-reached by replaying its shortest history on a fresh peer with the real pin tracker attached; every step is judged again; the final pinset must equal the state the search stored, and the raw datastore content must equal what restoring that state writes"
 	n := len(e.nodes)
 	step := n / want
 	if step < 1 {
@@ -173,6 +221,12 @@ func replaySample(t *testing.T, e *explorer, want int) {
 	}
 	var exact, byteSame, canonOnly, allocDiff int
 	for i := 0; i < n; i += step {
+		if overallLeft() < 0 {
+			sec.Exhaustive = false
+			sec.CapHit = "overall time limit reached: replay sample cut short"
+			R.NotExhaustive("replay: " + sec.CapHit)
+			break
+		}
 		nd := e.nodes[i]
 		// path of nodes from the root
 		var path []int
@@ -200,6 +254,7 @@ func replaySample(t *testing.T, e *explorer, want int) {
 				vs, class, nt := judge(r.cfg, pre, c, res, post, log, stateKey(pre) != stateKey(post))
 				hist = append(hist, c.String())
 				R.Eval(sec, "replay|"+r.cfg.String()+"|"+class, nt)
+				progress.Add(1)
 				R.Transitions(1)
 				if len(vs) > 0 {
 					report(vs, r.cfg, hist, c, pre, post, res, len(log))
